@@ -227,8 +227,14 @@ fn fa_rec(r: &fasta::RefRecord) -> String {
     }
     let n = r.num_seq_lines();
     let b = matches!(r.full_seq(), Cow::Borrowed(_));
-    let mut u = vec![];
+    // all writing goes through a writer that takes at most 2-3 bytes per call and has no write_vectored
+    let mut u = ShortWriter::new(2);
     r.write_unchanged(&mut u).unwrap();
+    let u = u.out;
+    let mut w = ShortWriter::new(3);
+    r.write(&mut w).unwrap();
+    let mut x = ShortWriter::new(2);
+    r.write_wrap(&mut x, 3).unwrap();
     let (idb, descb) = r.id_desc_bytes();
     let v = format!(
         "{}{}{}",
@@ -244,7 +250,7 @@ fn fa_rec(r: &fasta::RefRecord) -> String {
             Err(_) => true,
         };
     format!(
-        "h={}:l={}:r={}:n={}:b={}:o={}:u={}:i={}:d={}:v={}{}",
+        "h={}:l={}:r={}:n={}:b={}:o={}:u={}:w={}:x={}:i={}:d={}:v={}{}",
         hex(r.head()),
         lines,
         hex(r.seq()),
@@ -252,6 +258,8 @@ fn fa_rec(r: &fasta::RefRecord) -> String {
         if b { 1 } else { 0 },
         hex(&r.owned_seq()),
         hex(&u),
+        hex(&w.out),
+        hex(&x.out),
         hex(idb),
         match descb {
             None => "-".to_string(),
@@ -422,8 +430,11 @@ fn fq_err(e: &fastq::Error) -> String {
 
 fn fq_rec(r: &fastq::RefRecord) -> String {
     use fastq::Record;
-    let mut u = vec![];
+    let mut u = ShortWriter::new(2);
     r.write_unchanged(&mut u).unwrap();
+    let u = u.out;
+    let mut w = ShortWriter::new(3);
+    r.write(&mut w).unwrap();
     let (idb, descb) = r.id_desc_bytes();
     let v = format!(
         "{}{}{}",
@@ -438,11 +449,12 @@ fn fq_rec(r: &fastq::RefRecord) -> String {
             Err(_) => true,
         };
     format!(
-        "h={}:s={}:q={}:u={}:i={}:d={}:v={}{}",
+        "h={}:s={}:q={}:u={}:w={}:i={}:d={}:v={}{}",
         hex(r.head()),
         hex(r.seq()),
         hex(r.qual()),
         hex(&u),
+        hex(&w.out),
         hex(idb),
         match descb {
             None => "-".to_string(),
